@@ -64,3 +64,37 @@ def expected_jac(ctx, ref_vals, deps):
                     acc = acc + pk * lift(dj[k, j])
             out[i, j] = SReal(z3.simplify(acc))
     return out
+
+
+def uf_applications(terms):
+    """Distinct applications of the elementary-function symbols occurring in z3 terms."""
+    from .sym import UF
+
+    seen, out = set(), []
+
+    def rec(t):
+        k = t.get_id()
+        if k in seen:
+            return
+        seen.add(k)
+        if z3.is_app(t):
+            if t.decl().kind() == z3.Z3_OP_UNINTERPRETED and t.decl().name() in UF and t.num_args() == 1:
+                out.append(t)
+            for c in t.children():
+                rec(c)
+
+    for t in terms:
+        rec(t)
+    return out
+
+
+def bound_exp_applications(ctx, terms, lo=-4, hi=4):
+    """Ground range axioms: for every exp(t) occurring in the terms assume lo <= t <= hi and
+    1/64 <= exp(t) <= 64 (true for the real exponential on that range).  Returns the count."""
+    n = 0
+    for app in uf_applications(terms):
+        if app.decl().name() == "exp":
+            arg = app.arg(0)
+            ctx.assume(z3.And(arg >= lo, arg <= hi, app >= z3.RealVal(1) / 64, app <= 64))
+            n += 1
+    return n
